@@ -124,9 +124,89 @@ def work(task):
     return acc.result()
 
 
+BIG_SIZES = [(5000, 1200), (4096, 4097), (4097, 2), (8193, 5, 3), (3, 12289)]
+
+
+def big_case(sizes, ncol):
+    T = sum(sizes)
+    labels = []
+    for k, n in enumerate(sizes):
+        labels += [k] * n
+    # interleave a little so that members are not one contiguous range
+    labels[1], labels[-2] = labels[-2], labels[1]
+    i = np.arange(T)
+    cols = [((i * 37) % 101) / 4.0 + 10.0 * np.array(labels), ((i * 11) % 13) * 0.5 - np.array(labels)]
+    X = np.stack(cols[:ncol], axis=1)
+    return X, tuple(labels)
+
+
+def work_big(task):
+    """cluster sizes beyond 4096 (block-wise processing): one column, where the centre the code uses and the
+    per-column centroid coincide, and two columns"""
+    from vlib import lib
+    lib.load("nojit")
+    from fast_ticc import cluster_metrics
+    (sizes, ncol) = task
+    acc = Acc()
+    X, labels = big_case(sizes, ncol)
+    K = len(sizes)
+    acc.n += 1
+    case = {"kind": "big", "sizes": list(sizes), "columns": ncol}
+    try:
+        got = float(cluster_metrics.calinski_harabasz_index(X, make_model(X, labels, K)))
+    except Exception as e:
+        acc.fail(case, f"raised {type(e).__name__}: {e}")
+        return acc.result()
+    res = classify(got, X, labels, K)
+    acc.nontrivial += 1
+    if res not in (None, "skip"):
+        acc.fail(case, f"cluster sizes {list(sizes)}: " + res[0], res[1])
+    return acc.result()
+
+
+def work_same_object(task):
+    """ONE array object whose contents the caller changes in place between computations (and one model
+    object re-labelled in place): every computation must describe the current contents"""
+    from vlib import lib
+    lib.load("nojit")
+    from fast_ticc import cluster_metrics
+    (T, K, dn) = task
+    acc = Acc()
+    X0 = dict(datasets(T))[dn]
+    X = X0.copy()
+    steps = [("plain", lambda: X0), ("plus 7.5", lambda: X0 + 7.5), ("first sensor plus 100", lambda: X0 + np.eye(X0.shape[1])[0] * 100.0),
+             ("doubled", lambda: X0 * 2.0), ("plain again", lambda: X0)]
+    for labels in itertools.product(range(K), repeat=T):
+        if len(set(labels)) < K:
+            continue
+        if stopped():
+            break
+        for (name, f) in steps:
+            X[...] = f()
+            acc.n += 1
+            acc.nontrivial += 1
+            case = {"kind": "same_object", "T": T, "K": K, "data": dn, "labels": list(labels), "step": name}
+            try:
+                got = float(cluster_metrics.calinski_harabasz_index(X, make_model(X, labels, K)))
+            except Exception as e:
+                acc.fail(case, f"raised {type(e).__name__}: {e}")
+                break
+            res = classify(got, X, labels, K)
+            if res not in (None, "skip"):
+                acc.fail(case, f"same array object, contents now '{name}': " + res[0], res[1])
+                if res[1] is None:
+                    return acc.result()
+    acc.sample({"kind": "same_object", "T": T, "K": K, "data": dn})
+    return acc.result()
+
+
 def run(ctx):
     from vlib import lib
     lib.load("nojit")
+    for r in ctx.pmap(work_big, [(sz, nc) for sz in BIG_SIZES for nc in (1, 2)]):
+        ctx.take(r)
+    for r in ctx.pmap(work_same_object, [(T, K, dn) for T in (4, 5) for K in (2, 3) for dn in ("a", "b", "equal_means")]):
+        ctx.take(r)
     tasks = [(T, K) for T in range(4, 9 if ctx.thorough else 7) for K in (2, 3)]
     tasks.sort(key=lambda t: -t[1] ** t[0])
     for r in ctx.pmap(work, tasks):
@@ -136,6 +216,7 @@ def run(ctx):
     if ctx.thorough:
         menu += [("k2b", [L], 1), ("k3a", [L], 1), ("k3b", [L], 0), ("k2mat", [L], 0), ("k2w3", [L], 0)]
     ps = ml.e2_plans(ctx, menu, MONS, conform=False)
+    ps += ml.e2_plans(ctx, [("long6k", [3], 0)], MONS, conform=False, inits=drivers.long_inits)
     # the loop's control skeleton (scripted relabel outputs, see C09): final states whose labels differ from the
     # labels last fitted, incl. an emptied or singleton cluster, for every label sequence up to length 3
     from checks.c09 import work_skeleton, SK_ALPHA
@@ -149,7 +230,10 @@ def run(ctx):
         "single-sensor for the others) and single-sensor translations by 1e6 and 2.5e8: reported == definition with the per-column centroid (1e-9 relative) and "
         "unchanged under translation, under exact rescaling by 2^-17 and with the biased-estimator option set; a mismatch that equals the same formula with the scalar mean of all entries "
         "is the listed known finding, anything else a violation. (b) every converged enumerated main-loop run with "
-        "all clusters non-empty. non-trivial = cases with non-zero within-cluster dispersion")
+        "all clusters non-empty. non-trivial = cases with non-zero within-cluster dispersion. "
+        "(c) cluster sizes " + str(BIG_SIZES) + " with one and two columns (block-wise processing); (d) ONE array object whose "
+        "contents are changed in place between computations (plain, +7.5, one sensor +100, doubled, plain) for every "
+        "labelling of 4..5 windows; (e) the long6k driver (clusters of 5000/1200 windows)")
     ctx.cov["rule"] += (" Plus control-skeleton runs: the main loop with the relabel phase's output scripted, every label "
                         "sequence over 5 labellings up to length 3 (final labels that differ from the labels last fitted, "
                         "emptied and singleton clusters).")
@@ -164,6 +248,12 @@ def replay(ctx, case):
         return
     from vlib import lib
     lib.load("nojit")
+    if case.get("kind") == "big":
+        ctx.take(work_big((tuple(case["sizes"]), case["columns"])))
+        return
+    if case.get("kind") == "same_object":
+        ctx.take(work_same_object((case["T"], case["K"], case["data"])))
+        return
     if "data" in case:
         from fast_ticc import cluster_metrics
         T, K = case["T"], case["K"]
